@@ -167,7 +167,7 @@ def montyCore (P : Params) (x rr m : List Nat) (k n : Nat) (y : List Nat) : Exce
       | .ok rest =>
         let powers := p0 :: p1 :: rest
         let z := resize p0 n
-        match digitLoop w m k n powers y.length y.reverse z with
+        match digitLoop w P.squarings m k n powers y.length y.reverse z with
         | .error e => .error e
         | .ok z => montgomery z one m k n
 
